@@ -283,10 +283,19 @@ def enclosing_guards(fn, node):
             for v in p.values[:idx]:
                 out.append((v, isinstance(p.op, ast.And)))
         if isinstance(p, (ast.If, ast.While)):
+            def conj(t, truth):
+                # a conjunction taken true gives every conjunct; a disjunction taken false gives the negation of every disjunct
+                if isinstance(t, ast.BoolOp) and isinstance(t.op, ast.And) == truth:
+                    for v in t.values:
+                        conj(v, truth)
+                elif isinstance(t, ast.UnaryOp) and isinstance(t.op, ast.Not):
+                    conj(t.operand, not truth)
+                else:
+                    out.append((t, truth))
             if cur in p.body:
-                out.append((p.test, True))
+                conj(p.test, True)
             elif cur in p.orelse:
-                out.append((p.test, False))
+                conj(p.test, False)
         for field in ('body', 'orelse', 'finalbody'):
             blk = getattr(p, field, None)
             if isinstance(blk, list) and cur in blk:
